@@ -105,10 +105,17 @@ type Case struct {
 	Passes   []Pass `json:"passes"`
 	Desc     string `json:"desc,omitempty"`
 
-	// kind "conc": several directories of one server listed at the same time
+	// kinds "conc", "pipe", "churn": several directories of one server listed
+	// at the same time (pipe: several users of ONE fid; churn: while other
+	// parties create and remove short-lived entries), see reshape_conc_test.go
+	// and pipe_churn_test.go
 	Dirs  []DirSpec  `json:"dirs,omitempty"`
 	Conns []ConnSpec `json:"conns,omitempty"`
+	Churn *ChurnSpec `json:"churn,omitempty"`
 }
+
+// isConc: the case runs through runConc.
+func isConc(c *Case) bool { return c.Kind == "conc" || c.Kind == "pipe" || c.Kind == "churn" }
 
 // ---------------------------------------------------------------------------
 // environment: one scratch base directory per process, servers cached per
@@ -473,6 +480,9 @@ func openRaw(u *go9p.Ufs, aname string, cliDotu bool, cliMsize uint32) (*rawSess
 type passStats struct {
 	reads, nonEmpty, errors, records int
 	complete                         bool
+	overlap                          int  // pipe: Treads of this listing at an offset > 0 that were outstanding together with a Tread at offset 0 of another user of the fid
+	transient                        int  // churn: records of short-lived entries (not judged)
+	churned                          bool // churn: entries were removed by the other party between the first Tread and the last reply
 }
 
 type violation struct{ msg string }
@@ -516,6 +526,9 @@ type lister struct {
 	idx      int
 	cnt      uint32 // count of the Tread announced by next
 	ps       passStats
+	ignore   func(name string) bool // churn: names of short-lived entries; their records are not judged
+	lastErr  string                 // Ename of the last Rerror
+	rem0     int64                  // churn: entries removed by the other party before the listing began
 }
 
 // largest is the size of the largest record the directory can hold by the
@@ -582,6 +595,7 @@ func (l *lister) feed(r *ref9p.Msg) (done bool, err error) {
 	if r.Type == ref9p.Rerror {
 		l.ps.errors++
 		l.failed = append(l.failed, cnt)
+		l.lastErr = r.Ename
 		return false, nil
 	}
 	if r.Type != ref9p.Rread {
@@ -613,11 +627,15 @@ func (l *lister) feed(r *ref9p.Msg) (done bool, err error) {
 	}
 	for _, fc := range l.failed {
 		if int(fc) >= sizes[0] {
-			return true, viol("%s: Tread offset=%d count=%d answered with Rerror although the next entry %q is only %d bytes", where, off, fc, recs[0].Name, sizes[0])
+			return true, viol("%s: Tread offset=%d count=%d answered with Rerror (%q) although the next entry %q is only %d bytes", where, off, fc, l.lastErr, recs[0].Name, sizes[0])
 		}
 	}
 	l.failed = l.failed[:0]
 	for _, st := range recs {
+		if l.ignore != nil && l.ignore(st.Name) {
+			l.ps.transient++
+			continue
+		}
 		if !l.exp[st.Name] {
 			return true, viol("%s: Tread offset=%d count=%d returned an entry %q that os.ReadDir does not list", where, off, cnt, st.Name)
 		}
@@ -674,6 +692,7 @@ type result struct {
 	msize       uint32
 	entries     int
 	clientReads int
+	churnOps    int64 // churn: entries removed by the other parties while the case ran
 }
 
 // RunCase executes a case; a *violation error is a property violation, a
@@ -683,7 +702,7 @@ func RunCase(c *Case) (res result, err error) {
 	if err != nil {
 		return res, hErr("%v", err)
 	}
-	if c.Kind == "conc" {
+	if isConc(c) {
 		return runConcCase(c, b)
 	}
 	dir, err := os.MkdirTemp(b, "d")
@@ -930,7 +949,7 @@ func shape(c *Case) string {
 }
 
 func account(test string, c *Case, res result) {
-	if c.Kind == "conc" {
+	if isConc(c) {
 		accountConc(test, c, res)
 		return
 	}
@@ -1087,7 +1106,7 @@ func replayEnv(t *testing.T, e *hx.Envelope, repeat int) {
 	if err := json.Unmarshal(e.Case, &c); err != nil {
 		t.Fatalf("bad case: %v", err)
 	}
-	if c.Kind == "conc" {
+	if isConc(&c) {
 		// schedule dependent: a replay runs the case until it fails, 25 times at most
 		for i := 0; i < repeat; i++ {
 			if !execEnum(t, e.Test, &c) {
